@@ -222,9 +222,14 @@ def key_table(chk: Check):
     esize = R.self_attr(ek, "size")
     ok = all(nx[0] == "op" and nx[1] == "add" and EO in (nx[2], nx[3]) and find(nx, lambda x: x[0] == "f" and x[1:3] == ("HyperVStorageKeyTableEntryHeader", 2)) for _, nx in ei["next"])
     chk.decide(ok, "K-FORMULA", "entry-framing", loop, "the next entry starts entry.size bytes after the current one", found=str([S.show(nx)[-120:] for _, nx in ei["next"]]))
-    test = R.expr(ctx, loop.test, ctx.cfg.node_of[loop])
-    chk.decide(test == S.cmp_("<", EO, SIZE), "K-FORMULA", "entry-walk-bound", loop, "the walk stays inside the table (offset < size)", found=S.show(test)[:100])
     news = [n for n in ast.walk(loop) if isinstance(n, ast.Call) and R.expr(ctx, n)[0] == "call" and R.expr(ctx, n)[1] == "new:" + ek]
+    # an entry is parsed only while the running offset is inside the table (loop test or a leading `if offset >= size: break`)
+    okb = False
+    if news:
+        cs = [(c, p) for c, p in conds_sym(chk, ctx, news[0], kinds=("if", "prior", "while")) if S.contains(c, lambda x: x == EO)]
+        tab = reach_table(cs, {"o": EO, "s": SIZE}, [{"o": 10, "s": 100}, {"o": 99, "s": 100}, {"o": 100, "s": 100}, {"o": 101, "s": 100}, {"o": 10, "s": 10}])
+        okb = [bool(x) for x in tab] == [True, True, False, False, False]
+    chk.decide(okb, "K-FORMULA", "entry-walk-bound", loop, "the walk stays inside the table (an entry is parsed only at offset < size)")
     chk.decide(bool(news) and R.expr(ctx, news[0])[2][1] == EO, "K-FORMULA", "entry-at-running-offset", news[0] if news else loop, "each entry is parsed at the running offset")
     st = [n for n in ast.walk(loop) if isinstance(n, ast.Assign) and isinstance(n.targets[0], ast.Subscript) and "_lookup" in ast.unparse(n.targets[0])]
     chk.decide(bool(st) and R.expr(ctx, st[0].targets[0].slice, ctx.cfg.node_of[st[0]]) == EO, "K-PROV", "lookup-keyed-by-entry-offset", st[0] if st else loop,
@@ -240,7 +245,8 @@ def entry(chk: Check):
     H = lambda off: find(hdr, lambda x: False) or R.field(hdr, _fname(chk, off))  # noqa: E731
     tfield = R.field(hdr, _fname(chk, 0))
     flags, typ = R.self_attr(ek, "flags"), R.self_attr(ek, "type")
-    chk.decide(flags == S.op("rshift", S.op("and", tfield, S.C(0xFF00)), S.C(8)), "K-FORMULA", "entry-flags", chk.func(REL, "HyperVStorageKeyTableEntry.flags").func,
+    chk.decide(S.equiv(flags, S.op("rshift", S.op("and", tfield, S.C(0xFF00)), S.C(8)), n=200,
+                       domain=lambda leaf, rng: rng.randrange(0, 1 << 16) if leaf == tfield else None).equal is True, "K-FORMULA", "entry-flags", chk.func(REL, "HyperVStorageKeyTableEntry.flags").func,
                "flags = (type field & 0xFF00) >> 8", found=S.show(flags)[-80:])
     okt = typ[0] == "read" and typ[1] == "KeyDataType" and typ[3] == S.op("and", tfield, S.C(0xFF))
     chk.decide(okt, "K-FORMULA", "entry-type", chk.func(REL, "HyperVStorageKeyTableEntry.type").func, "type = KeyDataType(type field & 0xFF)", found=S.show(typ)[-80:])
@@ -262,8 +268,16 @@ def entry(chk: Check):
         if a[0] == "tuple" and len(a[1]) == 2:
             o_, s_ = a[1]
             up = find(a, lambda x: x[0] == "call" and x[1] == "ext:struct.unpack")
-            okf = bool(up) and up[0][2][0] == S.C("<IQ") and o_ == ("sub", up[0], S.C(1)) and s_ == ("sub", up[0], S.C(0)) and \
-                bool(find(up[0][2][1], lambda x: x[0] == "slice" and x[1] == S.C(None) and x[2] == S.C(12)))
+            okf = bool(up) and up[0][2][0] == S.C("<IQ") and o_ == ("sub", up[0], S.C(1)) and s_ == ("sub", up[0], S.C(0))
+            if okf:
+                # the 12 bytes unpacked are raw[data_offset : data_offset + 12], however the slice is spelled: compare on concrete bytes
+                blob = bytes((i * 13 + 1) & 0xFF for i in range(96))
+                for dv in (0, 1, 5, 20, 60):
+                    val = S.Valuation(1, override={raw: blob, doff: dv})
+                    try:
+                        okf = okf and S.ev(up[0][2][1], val) == blob[dv:dv + 12]
+                    except S.EvalError:
+                        okf = False
     chk.decide(okf, "K-PROV", "file-object-pointer", chk.func(REL, "HyperVStorageKeyTableEntry.file_object_pointer").func,
                "pointer = struct '<IQ' of data[:12] = (size, offset), returned as (offset, size)", found=S.show(fop)[-200:])
     # parent
